@@ -36,6 +36,7 @@ type c09Op struct {
 	Err   string   `json:"err"`
 	InUse []int    `json:"inuse"` // per class, after the op
 	Q     [2]int   `json:"q"`     // elements in flight: to server, to client
+	NoCmp int      `json:"nocmp"` // 1: op ran inside a concurrent phase - its snapshot is not a quiescent point
 }
 
 type c09Case struct {
@@ -49,6 +50,9 @@ type c09Case struct {
 	Oracle []string `json:"oracle"`
 	Feat   []string `json:"feat"`
 	Note   string   `json:"note,omitempty"`
+	// number of ops up to which the model is compared; the ops after it follow a racy phase (closes racing
+	// with the peer's flushes) whose outcome depends on the schedule: only the end oracle applies
+	CompareUpto int `json:"compare_upto"`
 }
 
 type c09World struct {
@@ -64,9 +68,12 @@ type c09World struct {
 	fatal          string
 	pinnedAtClose  int
 	nextGhost      int
+	fmu            sync.Mutex // guards fatal inside the concurrent phases
+	gate           *c09Gate
+	racy           bool
 }
 
-func c09Pair(id int, qcap uint32) (*Session, *Session, error) {
+func c09Pair(id int, qcap uint32, cb ListenCallback) (*Session, *Session, error) {
 	conf := DefaultConfig()
 	conf.MemMapType = MemMapTypeMemFd
 	conf.ConnectionWriteTimeout = 20 * time.Second
@@ -95,6 +102,7 @@ func c09Pair(id int, qcap uint32) (*Session, *Session, error) {
 			return
 		}
 		sc := *conf
+		sc.listenCallback = cb // nil except for the late-data scenario
 		server, serr = Server(conn, &sc)
 	}()
 	conn, err := net.Dial("unix", sock)
@@ -157,7 +165,7 @@ func (w *c09World) stream(e, sid int) *Stream {
 
 // every wait of the harness polls up to this bound; a history in which a wait expires is re-run from
 // scratch (fresh sessions, same seed) up to 2 more times before anything is reported
-const c09WaitBound = 60 * time.Second
+var c09WaitBound = time.Duration(venvInt("VERIF_WAIT_S", 60)) * time.Second
 
 func c09PendLen(s *Stream) int {
 	s.pendingData.Lock()
@@ -536,6 +544,316 @@ func (w *c09World) opWake(c *c09Case, e int) {
 // internal linkedBuffer.alloc to exercise that branch (it then double-frees: see the final report).
 var c09Prealloc = os.Getenv("VERIF_C09_PREALLOC") == "1"
 
+// The server's OnNewStream callback runs on the event loop right after getStream has created and
+// registered the stream object and BEFORE the data is added to its pendingData: holding it there opens
+// the window of the late-data path (stream.go fillDataToReadBuffer on a closed stream) deterministically.
+type c09Gate struct {
+	arrived chan *Stream
+	release chan struct{}
+}
+
+func (g *c09Gate) OnNewStream(s *Stream) {
+	g.arrived <- s
+	<-g.release
+}
+func (g *c09Gate) OnShutdown(reason string) {}
+
+// directed: data for a stream that its owner closes completely between the event loop's lookup and the
+// pendingData.add (Props/C09.v, C09_late_data_interleaving)
+func (w *c09World) lateDataScenario(c *c09Case) {
+	sid := w.opOpen(c)
+	if sid < 0 {
+		return
+	}
+	cs := w.streams[sid][0]
+	c.CompareUpto = len(c.Ops) // from here on the real run is not a sequence of atomic ops
+	cs.BufferWriter().WriteBytes(make([]byte, 3000))
+	if err := cs.Flush(false); err != nil {
+		w.fatal = "late-data scenario: flush failed: " + err.Error()
+		return
+	}
+	var ss *Stream
+	select {
+	case ss = <-w.gate.arrived:
+	case <-time.After(c09WaitBound):
+		w.fatal = "late-data scenario: the request did not reach the peer within the bound"
+		return
+	}
+	// the event loop is parked inside getStream's callback; the owner closes the object completely
+	closed := make(chan struct{})
+	go func() { ss.Close(); close(closed) }()
+	select {
+	case <-closed:
+	case <-time.After(c09WaitBound):
+		close(w.gate.release)
+		w.fatal = "late-data scenario: Close did not return within the bound"
+		return
+	}
+	inTable := w.server.getStreamById(uint32(sid)) != nil
+	close(w.gate.release) // now the loop adds the data to the closed object and re-checks the state
+	if !w.drained(0) || !w.drained(1) {
+		w.fatal = "late-data scenario: the peer did not drain the queue within the bound"
+		return
+	}
+	time.Sleep(time.Millisecond)
+	w.feat["late-data-for-closed-stream"] = true
+	w.closed[[2]int{1, sid}] = true
+	w.streams[sid] = [2]*Stream{cs, ss}
+	total := 0
+	for _, x := range w.inuse() {
+		total += x
+	}
+	if inTable {
+		w.oracle = append(w.oracle, "C09:harness-late-data-window-not-reached|the stream was still in the table after Close")
+	}
+	if total != 0 || c09PendLen(ss) != 0 {
+		w.oracle = append(w.oracle, fmt.Sprintf("C09:late-data-for-closed-stream-not-recycled|the event loop added data to a stream that had been closed between its lookup and the add; %d slot(s) stay in use, %d message(s) stay in pendingData of the closed stream", total, c09PendLen(ss)))
+	}
+	w.rec(c, c09Op{Op: "sync"})
+	w.opClose(c, 0, sid)
+}
+
+// ---- concurrent phases ---------------------------------------------------------------------------
+
+func (w *c09World) setFatal(msg string) {
+	w.fmu.Lock()
+	if w.fatal == "" {
+		w.fatal = msg
+	}
+	w.fmu.Unlock()
+}
+
+// record an op performed inside a concurrent phase (no snapshot: not a quiescent point)
+func c09Log(log *[]c09Op, op c09Op) { op.NoCmp = 1; *log = append(*log, op) }
+
+func (w *c09World) logWrite(log *[]c09Op, e, sid int, s *Stream, n int) {
+	before := map[int]bool{}
+	for _, x := range sliceIDs(w, s.sendBuf) {
+		before[x] = true
+	}
+	s.BufferWriter().WriteBytes(make([]byte, n))
+	var nw []int
+	for _, x := range sliceIDs(w, s.sendBuf) {
+		if !before[x] {
+			nw = append(nw, x)
+		}
+	}
+	heap := 0
+	if !s.sendBuf.isFromShareMemory() {
+		heap = 1
+	}
+	c09Log(log, c09Op{Op: "write", E: e, Sid: sid, Slots: nw, N: n, Heap: heap})
+}
+
+func (w *c09World) logFlush(log *[]c09Op, e, sid int, s *Stream) error {
+	var sizes []int
+	wpos, i := 0, 0
+	for sl := s.sendBuf.sliceList.front(); sl != nil; sl = sl.next() {
+		sizes = append(sizes, sl.size())
+		if sl == s.sendBuf.sliceList.writeSlice {
+			wpos = i
+			break
+		}
+		i++
+	}
+	if s.sendBuf.Len() == 0 {
+		sizes = nil
+	}
+	err := s.Flush(false)
+	es := ""
+	if err != nil {
+		es = err.Error()
+	}
+	c09Log(log, c09Op{Op: "flush", E: e, Sid: sid, Sizes: sizes, Wpos: wpos, Err: es})
+	return err
+}
+
+func (w *c09World) logReadAll(log *[]c09Op, e, sid int, s *Stream) {
+	a := w.avail(s)
+	if a > 0 {
+		if _, err := s.BufferReader().Discard(a); err != nil {
+			w.setFatal("concurrent phase: Discard failed: " + err.Error())
+		}
+	}
+	c09Log(log, c09Op{Op: "read", E: e, Sid: sid, Kind: 1, N: a})
+	s.BufferReader().ReleasePreviousRead()
+	c09Log(log, c09Op{Op: "release", E: e, Sid: sid})
+}
+
+// Phase A: independent request/response traffic on several streams at once (user threads of both
+// endpoints and both event loops really run concurrently).  Per-stream logs are emitted one after the other
+// (a valid linearisation: the streams do not interact, the queue never fills, no slot is reused inside the
+// phase); the model is compared at the quiescent point after the phase.
+func (w *c09World) phaseConcurrent(c *c09Case, r *vrand) {
+	if w.fatal != "" || len(w.ext) > 0 || c.QCap < 3 {
+		return
+	}
+	// start from empty queues (elements injected without a wake-up would take queue slots)
+	if w.client.queueManager.sendQueue.size() != 0 {
+		w.opWake(c, 0)
+	}
+	if w.server.queueManager.sendQueue.size() != 0 {
+		w.opWake(c, 1)
+	}
+	maxPick := c.QCap - 1 // every stream has at most one element in flight per direction: the queue never fills
+	if maxPick > 4 {
+		maxPick = 4
+	}
+	eligible := func() []int {
+		var l []int
+		for _, sid := range w.sids {
+			cs := w.streams[sid][0]
+			if cs == nil || w.closed[[2]int{0, sid}] || !cs.IsOpen() || cs.inFallbackState || !cs.sendBuf.isFromShareMemory() {
+				continue
+			}
+			if ss := w.stream(1, sid); ss != nil && (w.closed[[2]int{1, sid}] || !ss.IsOpen() || ss.inFallbackState || !ss.sendBuf.isFromShareMemory() ||
+				c09PendLen(ss) > 0 || ss.recvBuf.Len() > 0) {
+				continue
+			}
+			if c09PendLen(cs) > 0 || cs.recvBuf.Len() > 0 {
+				continue // nothing unread on either side: "data is there" then means "this round's message arrived"
+			}
+			l = append(l, sid)
+		}
+		return l
+	}
+	picked := eligible()
+	for len(picked) < 2 && len(w.sids) < 10 && w.fatal == "" {
+		w.opOpen(c)
+		picked = eligible()
+	}
+	if len(picked) > maxPick {
+		picked = picked[:maxPick]
+	}
+	if len(picked) < 2 || w.fatal != "" {
+		return
+	}
+	logs := make([][]c09Op, len(picked))
+	seeds := make([]uint64, len(picked))
+	for i := range seeds {
+		seeds[i] = r.u64()
+	}
+	var wg sync.WaitGroup
+	for i, sid := range picked {
+		wg.Add(1)
+		go func(i, sid int) {
+			defer wg.Done()
+			rr := newVrand(seeds[i])
+			cs := w.streams[sid][0]
+			log := &logs[i]
+			for round := 0; round < 2; round++ {
+				w.logWrite(log, 0, sid, cs, 1+rr.intn(4000))
+				if w.logFlush(log, 0, sid, cs) != nil {
+					w.setFatal("concurrent phase: client flush failed")
+					return
+				}
+				var ss *Stream
+				if !c09Wait(func() bool {
+					ss = w.server.getStreamById(uint32(sid))
+					return ss != nil && (c09PendLen(ss) > 0 || ss.recvBuf.Len() > 0)
+				}, c09WaitBound) {
+					w.setFatal("concurrent phase: the request did not reach the peer within the bound")
+					return
+				}
+				w.logReadAll(log, 1, sid, ss)
+				w.logWrite(log, 1, sid, ss, 1+rr.intn(4000))
+				if w.logFlush(log, 1, sid, ss) != nil {
+					w.setFatal("concurrent phase: server flush failed")
+					return
+				}
+				if !c09Wait(func() bool { return c09PendLen(cs) > 0 || cs.recvBuf.Len() > 0 }, c09WaitBound) {
+					w.setFatal("concurrent phase: the response did not reach the peer within the bound")
+					return
+				}
+				w.logReadAll(log, 0, sid, cs)
+			}
+		}(i, sid)
+	}
+	wg.Wait()
+	if w.fatal != "" {
+		return
+	}
+	if !w.drained(0) || !w.drained(1) {
+		w.fatal = "concurrent phase: the peer did not drain the queue within the bound"
+		return
+	}
+	for i, sid := range picked {
+		_ = w.stream(1, sid) // register the server-side objects created during the phase
+		c.Ops = append(c.Ops, logs[i]...)
+	}
+	w.feat["concurrent-traffic-phase"] = true
+	w.rec(c, c09Op{Op: "sync"})
+}
+
+// Phase B (last thing of a history): closes racing with the peer's flushes.  Whether a flush is delivered
+// before the close, meets a stream that is already closed (late-data path) or an id the table no longer
+// knows (recycled by the client, a new stream object on the server) depends on the schedule, so the model
+// is not compared after this point; the end oracle (in-use == 0 once everything is closed) still applies.
+func (w *c09World) phaseRacyClose(c *c09Case, r *vrand) {
+	if w.fatal != "" || len(w.ext) > 0 {
+		return
+	}
+	var picked []int
+	for _, sid := range w.sids {
+		cs, ss := w.streams[sid][0], w.stream(1, sid)
+		if cs == nil || ss == nil || w.closed[[2]int{0, sid}] || w.closed[[2]int{1, sid}] || !cs.IsOpen() || !ss.IsOpen() {
+			continue
+		}
+		if cs.inFallbackState || ss.inFallbackState || !cs.sendBuf.isFromShareMemory() || !ss.sendBuf.isFromShareMemory() {
+			continue // socket events are handled asynchronously: nothing to wait on
+		}
+		picked = append(picked, sid)
+	}
+	if len(picked) == 0 {
+		return
+	}
+	c.CompareUpto = len(c.Ops)
+	w.racy = true
+	var wg sync.WaitGroup
+	for _, sid := range picked {
+		cs, ss := w.streams[sid][0], w.streams[sid][1]
+		writer, closer := cs, ss
+		if r.chance(50) {
+			writer, closer = ss, cs
+		}
+		delay := time.Duration(r.intn(200)) * time.Microsecond
+		wg.Add(2)
+		go func() {
+			defer wg.Done()
+			for k := 0; k < 6; k++ {
+				writer.BufferWriter().WriteBytes(make([]byte, 1+k*700))
+				writer.Flush(false)
+			}
+		}()
+		go func() {
+			defer wg.Done()
+			time.Sleep(delay)
+			closer.Close()
+		}()
+	}
+	wg.Wait()
+	for _, sid := range picked {
+		// whoever closed: mark what is closed now (finish closes the rest, re-created objects included)
+		for e := 0; e < 2; e++ {
+			if st := w.streams[sid][e]; st != nil && st.getStreamState() == uint32(streamClosed) {
+				w.closed[[2]int{e, sid}] = true
+			}
+		}
+	}
+	// elements injected earlier without a wake-up may still sit in a queue (a close that found the queue full
+	// went over the socket and woke nobody): wake both sides before waiting
+	w.client.wakeUpPeer()
+	w.server.wakeUpPeer()
+	if !w.drained(0) || !w.drained(1) {
+		w.fatal = fmt.Sprintf("racy phase: the peer did not drain the queue within the bound [client closed=%v server closed=%v q->srv=%d working=%v q->cli=%d working=%v]",
+			w.client.IsClosed(), w.server.IsClosed(), w.client.queueManager.sendQueue.size(), w.client.queueManager.sendQueue.consumerIsWorking(),
+			w.server.queueManager.sendQueue.size(), w.server.queueManager.sendQueue.consumerIsWorking())
+		return
+	}
+	time.Sleep(2 * time.Millisecond)
+	w.feat["racy-close-phase"] = true
+}
+
 func c09History(w *c09World, r *vrand, c *c09Case, nops int) {
 	sizes := []int{1, 100, 4095, 4096, 4097, 8192, 16383, 16384, 16385, 20000, 40000}
 	pickStream := func() (int, int, bool) {
@@ -613,8 +931,18 @@ func c09History(w *c09World, r *vrand, c *c09Case, nops int) {
 			}
 			w.opInject(c, r.chance(50), sid, 1+r.intn(4000))
 		default:
-			w.opWake(c, r.intn(2))
+			if r.chance(50) {
+				w.opWake(c, r.intn(2))
+			} else {
+				w.phaseConcurrent(c, r)
+			}
 		}
+	}
+	if w.fatal == "" && r.chance(60) {
+		w.phaseConcurrent(c, r)
+	}
+	if w.fatal == "" && r.chance(50) {
+		w.phaseRacyClose(c, r)
 	}
 }
 
@@ -651,6 +979,8 @@ func c09Directed(w *c09World, c *c09Case, which int) {
 		w.opFlush(c, 0, sid)
 		w.opExtReturn(c)
 		w.opClose(c, 0, sid)
+	case 2:
+		w.lateDataScenario(c)
 	}
 }
 
@@ -744,7 +1074,13 @@ func c09RunJob(id, attempt, sub, qcap int, seed uint64, nops int) (c c09Case, fa
 			fatal = fmt.Sprintf("panic: %v", e)
 		}
 	}()
-	cl, sv, err := c09Pair(id*4+attempt, uint32(qcap)) // fresh paths: nothing is shared with an abandoned attempt
+	var gate *c09Gate
+	var cb ListenCallback
+	if sub == 2 {
+		gate = &c09Gate{arrived: make(chan *Stream, 4), release: make(chan struct{})}
+		cb = gate
+	}
+	cl, sv, err := c09Pair(id*4+attempt, uint32(qcap), cb) // fresh paths: nothing is shared with an abandoned attempt
 	if err != nil {
 		return c, "setup failed: " + err.Error()
 	}
@@ -761,6 +1097,7 @@ func c09RunJob(id, attempt, sub, qcap int, seed uint64, nops int) (c c09Case, fa
 		c.Caps = append(c.Caps, int(*l.cap))
 		c.Sizes = append(c.Sizes, int(*l.capPerBuffer))
 	}
+	w.gate = gate
 	if sub >= 0 {
 		c09Directed(w, &c, sub)
 	} else {
@@ -787,9 +1124,9 @@ func TestVerif_C09(t *testing.T) {
 		seed    uint64
 	}
 	var jobs []job
-	jobs = append(jobs, job{0, 0, 8, 0}, job{1, 1, 2, 0})
+	jobs = append(jobs, job{0, 0, 8, 0}, job{1, 1, 2, 0}, job{2, 2, 8, 0})
 	for k := 0; k < n; k++ {
-		jobs = append(jobs, job{2 + k, -1, []int{2, 3, 4, 8}[r.intn(4)], r.u64()})
+		jobs = append(jobs, job{3 + k, -1, []int{2, 3, 4, 8}[r.intn(4)], r.u64()})
 	}
 	results := make([]c09Case, len(jobs))
 	sem := make(chan struct{}, 8)
